@@ -126,13 +126,13 @@ func (p *c16Pat) toProto() *appctlpb.TrafficPattern {
 	return tp
 }
 
-func oi(v *int32) string {
+func c16oi(v *int32) string {
 	if v == nil {
 		return "-"
 	}
 	return fmt.Sprint(*v)
 }
-func ob(v *bool) string {
+func c16ob(v *bool) string {
 	if v == nil {
 		return "-"
 	}
@@ -141,7 +141,7 @@ func ob(v *bool) string {
 	}
 	return "0"
 }
-func b01(v bool) string {
+func c16b01(v bool) string {
 	if v {
 		return "1"
 	}
@@ -150,9 +150,9 @@ func b01(v bool) string {
 
 // c16Tokens renders a TrafficPattern message as the 17 tokens of the driver protocol.
 func c16Tokens(tp *appctlpb.TrafficPattern) string {
-	t := []string{oi(tp.Seed), ob(tp.UnlockAll)}
+	t := []string{c16oi(tp.Seed), c16ob(tp.UnlockAll)}
 	if f := tp.TcpFragment; f != nil {
-		t = append(t, "P", ob(f.Enable), oi(f.MaxSleepMs))
+		t = append(t, "P", c16ob(f.Enable), c16oi(f.MaxSleepMs))
 	} else {
 		t = append(t, "-", "-", "-")
 	}
@@ -174,12 +174,12 @@ func c16Tokens(tp *appctlpb.TrafficPattern) string {
 			}
 			hx = strings.Join(el, ",")
 		}
-		t = append(t, "P", oi(ty), ob(n.ApplyToAllUDPPacket), oi(n.MinLen), oi(n.MaxLen), hx)
+		t = append(t, "P", c16oi(ty), c16ob(n.ApplyToAllUDPPacket), c16oi(n.MinLen), c16oi(n.MaxLen), hx)
 	} else {
 		t = append(t, "-", "-", "-", "-", "-", "-")
 	}
 	if p := tp.Padding; p != nil {
-		t = append(t, "P", oi(p.MaxMiddlePaddingLen), oi(p.MaxEndPaddingLen))
+		t = append(t, "P", c16oi(p.MaxMiddlePaddingLen), c16oi(p.MaxEndPaddingLen))
 	} else {
 		t = append(t, "-", "-", "-")
 	}
@@ -193,7 +193,7 @@ func c16Tokens(tp *appctlpb.TrafficPattern) string {
 			v := int32(*l.MaskRotation)
 			r = &v
 		}
-		t = append(t, "P", oi(m), oi(r))
+		t = append(t, "P", c16oi(m), c16oi(r))
 	} else {
 		t = append(t, "-", "-", "-")
 	}
@@ -630,7 +630,7 @@ func c16NonceCase(c *core.Ctx, k c16Case) {
 		return
 	}
 	// model: which nonces are rewritten, and the length range
-	fl := c.Model.Ask("pat-rewrite-flags %s %s %d", b01(k.Stateless), b01(all), n)
+	fl := c.Model.Ask("pat-rewrite-flags %s %s %d", c16b01(k.Stateless), c16b01(all), n)
 	rg := c.Model.Ask("pat-rewrite-range %d %d 24", lo0, hi0)
 	c.Compared()
 	var lo, hi int
@@ -791,10 +791,10 @@ func c16MaxPad(c *core.Ctx, k c16Case) {
 	c.Eval(string(keyb), true)
 	base := protocol.VerifMaxPaddingSize(k.MTU, k.Transport, k.Frag, k.Existing)
 	got := protocol.VerifMaxPaddingSizeWithTrafficPattern(k.MTU, k.Transport, k.Frag, k.Existing, tp, k.Position)
-	m := c.Model.Ask("pat-maxpad %d %s", base, oi(cfg))
+	m := c.Model.Ask("pat-maxpad %d %s", base, c16oi(cfg))
 	c.Compared()
 	if m != fmt.Sprintf("ok %d", got) {
-		c.Disagree("C16/corr/maxpad", fmt.Sprintf("model %q impl %d (base %d configured %s)", m, got, base, oi(cfg)), k)
+		c.Disagree("C16/corr/maxpad", fmt.Sprintf("model %q impl %d (base %d configured %s)", m, got, base, c16oi(cfg)), k)
 	}
 	if cfg != nil && *cfg >= 0 && got > int(*cfg) {
 		c.Violate("C16/padding-above-configured", fmt.Sprintf("padding budget %d above the configured maximum %d", got, *cfg), k)
@@ -817,15 +817,15 @@ func c16LESend(c *core.Ctx, k c16Case) {
 		tpP = "P"
 		if tp.LowEntropy != nil {
 			leP = "P"
-			mode, rot = oi(k.Pat.LE.Mode), oi(k.Pat.LE.Rot)
+			mode, rot = c16oi(k.Pat.LE.Mode), c16oi(k.Pat.LE.Rot)
 		}
 	}
 	keyb, _ := json.Marshal(k)
 	c.Eval(string(keyb), true)
 	gm, gr, on := protocol.VerifLowEntropySendConfig(tp, k.IsClient, k.Used)
-	m := c.Model.Ask("pat-le-send %s %s %s %s %s %s", tpP, leP, mode, rot, b01(k.IsClient), b01(k.Used))
+	m := c.Model.Ask("pat-le-send %s %s %s %s %s %s", tpP, leP, mode, rot, c16b01(k.IsClient), c16b01(k.Used))
 	c.Compared()
-	if got := fmt.Sprintf("ok %d %d %s", gm, gr, b01(on)); m != got {
+	if got := fmt.Sprintf("ok %d %d %s", gm, gr, c16b01(on)); m != got {
 		c.Disagree("C16/corr/le-send", fmt.Sprintf("model %q impl %q", m, got), k)
 	}
 	c.Hist("le_send", fmt.Sprintf("client=%v used=%v on=%v", k.IsClient, k.Used, on))
@@ -940,8 +940,8 @@ func c16Run(c *core.Ctx, k c16Case) {
 
 // ---- generators -----------------------------------------------------------------------------
 
-func p32(v int32) *int32 { return &v }
-func pb(v bool) *bool    { return &v }
+func c16p32(v int32) *int32 { return &v }
+func c16pb(v bool) *bool    { return &v }
 
 var c16Rotations = func() []int32 {
 	r := []int32{0}
@@ -956,14 +956,14 @@ var c16HexChoices = [][]string{
 	{"aa", "bbbb", "cccccc", "dddddddd"}, {""}, {"", "0a0b0c0d0e0f"}, {"1703030000000000", "1703030000000001", "1703030000000002"},
 }
 
-func pick32(c *core.Ctx, vs ...int32) *int32 { return p32(vs[c.Rand.Intn(len(vs))]) }
+func c16pick32(c *core.Ctx, vs ...int32) *int32 { return c16p32(vs[c.Rand.Intn(len(vs))]) }
 
 func c16Seed(c *core.Ctx) *int32 {
 	switch c.Rand.Intn(6) {
 	case 0:
-		return pick32(c, 0, 1, -1, math.MaxInt32, math.MinInt32)
+		return c16pick32(c, 0, 1, -1, math.MaxInt32, math.MinInt32)
 	default:
-		return p32(int32(c.Rand.Uint32()))
+		return c16p32(int32(c.Rand.Uint32()))
 	}
 }
 
@@ -977,40 +977,40 @@ func c16Subset(c *core.Ctx, mask int) *c16Pat {
 		p.Seed = c16Seed(c)
 	}
 	if bit(1) {
-		p.UnlockAll = pb(c.Rand.Intn(2) == 0)
+		p.UnlockAll = c16pb(c.Rand.Intn(2) == 0)
 	}
 	emptyMsg := func() bool { return c.Rand.Intn(2) == 0 } // sub-message present but empty, or nil
 	if bit(2) || bit(3) || emptyMsg() {
 		p.Tcp = &c16Tcp{}
 		if bit(2) {
-			p.Tcp.Enable = pb(c.Rand.Intn(2) == 0)
+			p.Tcp.Enable = c16pb(c.Rand.Intn(2) == 0)
 		}
 		if bit(3) {
-			p.Tcp.MaxSleepMs = pick32(c, 0, 1, 50, 99, 100)
+			p.Tcp.MaxSleepMs = c16pick32(c, 0, 1, 50, 99, 100)
 		}
 	}
 	if bit(4) || bit(5) || bit(6) || bit(7) || bit(8) || emptyMsg() {
 		p.Nonce = &c16Nonce{}
 		if bit(4) {
-			p.Nonce.Type = pick32(c, 0, 1, 2, 3)
+			p.Nonce.Type = c16pick32(c, 0, 1, 2, 3)
 		}
 		if bit(5) {
-			p.Nonce.ApplyAll = pb(c.Rand.Intn(2) == 0)
+			p.Nonce.ApplyAll = c16pb(c.Rand.Intn(2) == 0)
 		}
 		switch {
 		case bit(6) && bit(7):
-			mx := *pick32(c, 0, 1, 3, 5, 6, 11, 12)
+			mx := *c16pick32(c, 0, 1, 3, 5, 6, 11, 12)
 			var mn int32
 			if c.Rand.Intn(3) == 0 {
 				mn = mx // minLen = maxLen
 			} else {
 				mn = int32(c.Rand.Intn(int(mx) + 1))
 			}
-			p.Nonce.MinLen, p.Nonce.MaxLen = p32(mn), p32(mx)
+			p.Nonce.MinLen, p.Nonce.MaxLen = c16p32(mn), c16p32(mx)
 		case bit(6):
-			p.Nonce.MinLen = pick32(c, 0, 1, 5, 6, 7, 11, 12)
+			p.Nonce.MinLen = c16pick32(c, 0, 1, 5, 6, 7, 11, 12)
 		case bit(7):
-			p.Nonce.MaxLen = pick32(c, 0, 1, 2, 3, 4, 5, 6, 7, 11, 12) // mostly below the implicit minLen 6..12
+			p.Nonce.MaxLen = c16pick32(c, 0, 1, 2, 3, 4, 5, 6, 7, 11, 12) // mostly below the implicit minLen 6..12
 		}
 		if bit(8) {
 			p.Nonce.Hex = c16HexChoices[c.Rand.Intn(len(c16HexChoices))]
@@ -1019,19 +1019,19 @@ func c16Subset(c *core.Ctx, mask int) *c16Pat {
 	if bit(9) || bit(10) || emptyMsg() {
 		p.Padding = &c16Pad{}
 		if bit(9) {
-			p.Padding.Mid = pick32(c, 0, 1, 127, 128, 254, 255)
+			p.Padding.Mid = c16pick32(c, 0, 1, 127, 128, 254, 255)
 		}
 		if bit(10) {
-			p.Padding.End = pick32(c, 0, 1, 127, 128, 254, 255)
+			p.Padding.End = c16pick32(c, 0, 1, 127, 128, 254, 255)
 		}
 	}
 	if bit(11) || bit(12) || emptyMsg() {
 		p.LE = &c16LE{}
 		if bit(11) {
-			p.LE.Mode = pick32(c, 0, 1, 2, 3, 4)
+			p.LE.Mode = c16pick32(c, 0, 1, 2, 3, 4)
 		}
 		if bit(12) {
-			p.LE.Rot = p32(c16Rotations[c.Rand.Intn(len(c16Rotations))])
+			p.LE.Rot = c16p32(c16Rotations[c.Rand.Intn(len(c16Rotations))])
 		}
 	}
 	return p
@@ -1054,32 +1054,32 @@ func c16Invalid(c *core.Ctx, p *c16Pat) *c16Pat {
 	for n := 1 + c.Rand.Intn(2); n > 0; n-- {
 		switch c.Rand.Intn(12) {
 		case 0:
-			p.Tcp.MaxSleepMs = pick32(c, -1, 101, math.MinInt32, math.MaxInt32)
+			p.Tcp.MaxSleepMs = c16pick32(c, -1, 101, math.MinInt32, math.MaxInt32)
 		case 1:
-			p.Nonce.MinLen = pick32(c, -1, 13, math.MinInt32, 255)
+			p.Nonce.MinLen = c16pick32(c, -1, 13, math.MinInt32, 255)
 		case 2:
-			p.Nonce.MaxLen = pick32(c, -1, 13, math.MaxInt32, 24)
+			p.Nonce.MaxLen = c16pick32(c, -1, 13, math.MaxInt32, 24)
 		case 3:
-			p.Nonce.MinLen, p.Nonce.MaxLen = pick32(c, 4, 12, 1), pick32(c, 0, 3)
+			p.Nonce.MinLen, p.Nonce.MaxLen = c16pick32(c, 4, 12, 1), c16pick32(c, 0, 3)
 			if *p.Nonce.MinLen <= *p.Nonce.MaxLen {
-				p.Nonce.MinLen = p32(*p.Nonce.MaxLen + 1)
+				p.Nonce.MinLen = c16p32(*p.Nonce.MaxLen + 1)
 			}
 		case 4:
 			p.Nonce.Hex = [][]string{{"0"}, {"zz"}, {"00", "0g"}, {"00", "11", "abc"}, {"é0"}, {" 00"}, {"0x00"}}[c.Rand.Intn(7)]
 		case 5:
 			p.Nonce.Hex = [][]string{{"000102030405060708090a0b0c"}, {"00", "ffffffffffffffffffffffffffffffff"}}[c.Rand.Intn(2)]
 		case 6:
-			p.Padding.Mid = pick32(c, -1, 256, math.MaxInt32)
+			p.Padding.Mid = c16pick32(c, -1, 256, math.MaxInt32)
 		case 7:
-			p.Padding.End = pick32(c, -1, 256, math.MinInt32)
+			p.Padding.End = c16pick32(c, -1, 256, math.MinInt32)
 		case 8:
-			p.LE.Mode = pick32(c, -1, 5, 100)
+			p.LE.Mode = c16pick32(c, -1, 5, 100)
 		case 9:
-			p.LE.Rot = pick32(c, -1, 17, 31, 241, 256, 255)
+			p.LE.Rot = c16pick32(c, -1, 17, 31, 241, 256, 255)
 		case 10:
-			p.Nonce.Type = pick32(c, -1, 4, 99) // the nonce type is not validated: stays acceptable
+			p.Nonce.Type = c16pick32(c, -1, 4, 99) // the nonce type is not validated: stays acceptable
 		case 11:
-			p.Padding.Mid, p.Padding.End = pick32(c, 0, 255), pick32(c, 255, 0)
+			p.Padding.Mid, p.Padding.End = c16pick32(c, 0, 255), c16pick32(c, 255, 0)
 		}
 	}
 	return p
@@ -1135,9 +1135,9 @@ func init() {
 			for s := 0; s < nseed; s++ {
 				seed := c16Seed(c)
 				if s < 4 {
-					seed = []*int32{p32(0), p32(-1), p32(math.MaxInt32), nil}[s]
+					seed = []*int32{c16p32(0), c16p32(-1), c16p32(math.MaxInt32), nil}[s]
 				}
-				for _, ua := range []*bool{nil, pb(false), pb(true)} {
+				for _, ua := range []*bool{nil, c16pb(false), c16pb(true)} {
 					for mn := int32(-1); mn <= 12; mn++ {
 						for mx := int32(-1); mx <= 12; mx++ {
 							if mn >= 0 && mx >= 0 && mn > mx {
@@ -1145,10 +1145,10 @@ func init() {
 							}
 							n := &c16Nonce{}
 							if mn >= 0 {
-								n.MinLen = p32(mn)
+								n.MinLen = c16p32(mn)
 							}
 							if mx >= 0 {
-								n.MaxLen = p32(mx)
+								n.MaxLen = c16p32(mx)
 							}
 							c16Run(c, c16Case{Kind: "config", Pat: &c16Pat{Seed: seed, UnlockAll: ua, Nonce: n}})
 						}
@@ -1171,7 +1171,7 @@ func init() {
 					for _, all := range []bool{true, false} {
 						for ri, rg := range ranges {
 							n := 800
-							np := &c16Nonce{Type: p32(ty), ApplyAll: pb(all), MinLen: p32(rg.lo), MaxLen: p32(rg.hi)}
+							np := &c16Nonce{Type: c16p32(ty), ApplyAll: c16pb(all), MinLen: c16p32(rg.lo), MaxLen: c16p32(rg.hi)}
 							if ty == 3 {
 								np.Hex = c16HexChoices[(ri+int(c.Seed))%len(c16HexChoices)]
 								if ri == 0 {
@@ -1197,18 +1197,18 @@ func init() {
 					continue
 				}
 				e := cfg.Effective().Nonce
-				np := &c16Nonce{Type: p32(int32(e.GetType())), ApplyAll: pb(e.GetApplyToAllUDPPacket()), MinLen: p32(e.GetMinLen()), MaxLen: p32(e.GetMaxLen()), Hex: e.GetCustomHexStrings()}
+				np := &c16Nonce{Type: c16p32(int32(e.GetType())), ApplyAll: c16pb(e.GetApplyToAllUDPPacket()), MinLen: c16p32(e.GetMinLen()), MaxLen: c16p32(e.GetMaxLen()), Hex: e.GetCustomHexStrings()}
 				c16Run(c, c16Case{Kind: "nonce", Pat: &c16Pat{Nonce: np}, Stateless: c.Rand.Intn(2) == 0, N: 64})
 			}
 			// --- padding cap
-			cfgs := []*int32{nil, p32(-1), p32(0), p32(1), p32(100), p32(254), p32(255), p32(300)}
+			cfgs := []*int32{nil, c16p32(-1), c16p32(0), c16p32(1), c16p32(100), c16p32(254), c16p32(255), c16p32(300)}
 			for _, mtu := range []int{1280, 1400, 1500} {
 				for _, tr := range []int{1, 2} {
 					for _, frag := range []int{0, 1, 100, mtu - 88 - 255, mtu - 88 - 100, mtu - 88 - 1, mtu - 88, mtu} {
 						for _, ex := range []int{0, 1, 100, 255} {
 							for pos := 0; pos <= 2; pos++ {
 								for _, mid := range cfgs {
-									for _, end := range []*int32{nil, p32(0), p32(7), p32(255)} {
+									for _, end := range []*int32{nil, c16p32(0), c16p32(7), c16p32(255)} {
 										c16Run(c, c16Case{Kind: "maxpad", MTU: mtu, Transport: tr, Frag: frag, Existing: ex, Position: pos, Pat: &c16Pat{Padding: &c16Pad{Mid: mid, End: end}}})
 									}
 								}
@@ -1219,31 +1219,31 @@ func init() {
 					}
 				}
 			}
-			c.Sample(c16Case{Kind: "maxpad", MTU: 1400, Transport: 2, Frag: 100, Existing: 0, Position: 0, Pat: &c16Pat{Padding: &c16Pad{Mid: p32(0)}}})
+			c.Sample(c16Case{Kind: "maxpad", MTU: 1400, Transport: 2, Frag: 100, Existing: 0, Position: 0, Pat: &c16Pat{Padding: &c16Pad{Mid: c16p32(0)}}})
 			// --- low-entropy send decision (exhaustive)
 			for _, isClient := range []bool{true, false} {
 				for _, used := range []bool{true, false} {
 					c16Run(c, c16Case{Kind: "lesend", Nil: true, IsClient: isClient, Used: used})
 					c16Run(c, c16Case{Kind: "lesend", Pat: &c16Pat{}, IsClient: isClient, Used: used})
-					for _, mode := range []*int32{nil, p32(0), p32(1), p32(2), p32(3), p32(4), p32(7)} {
-						for _, rot := range []*int32{nil, p32(0), p32(5), p32(32), p32(240)} {
+					for _, mode := range []*int32{nil, c16p32(0), c16p32(1), c16p32(2), c16p32(3), c16p32(4), c16p32(7)} {
+						for _, rot := range []*int32{nil, c16p32(0), c16p32(5), c16p32(32), c16p32(240)} {
 							c16Run(c, c16Case{Kind: "lesend", Pat: &c16Pat{LE: &c16LE{Mode: mode, Rot: rot}}, IsClient: isClient, Used: used})
 						}
 					}
 				}
 			}
-			c.Sample(c16Case{Kind: "lesend", Pat: &c16Pat{LE: &c16LE{Mode: p32(3), Rot: p32(32)}}, IsClient: false, Used: false})
+			c.Sample(c16Case{Kind: "lesend", Pat: &c16Pat{LE: &c16LE{Mode: c16p32(3), Rot: c16p32(32)}}, IsClient: false, Used: false})
 			// --- TCP fragmentation
 			for _, size := range []int{1, 2, 15, 16, 100, 1500, 40000} {
 				c16Run(c, c16Case{Kind: "tcpfrag", Nil: true, Size: size})
 				c16Run(c, c16Case{Kind: "tcpfrag", Pat: &c16Pat{}, Size: size})
 				c16Run(c, c16Case{Kind: "tcpfrag", Pat: &c16Pat{Tcp: &c16Tcp{}}, Size: size})
-				c16Run(c, c16Case{Kind: "tcpfrag", Pat: &c16Pat{Tcp: &c16Tcp{Enable: pb(false), MaxSleepMs: p32(100)}}, Size: size})
+				c16Run(c, c16Case{Kind: "tcpfrag", Pat: &c16Pat{Tcp: &c16Tcp{Enable: c16pb(false), MaxSleepMs: c16p32(100)}}, Size: size})
 				for i := 0; i < c.N(3, 20); i++ {
-					c16Run(c, c16Case{Kind: "tcpfrag", Pat: &c16Pat{Tcp: &c16Tcp{Enable: pb(true), MaxSleepMs: p32(0)}}, Size: size, N: i})
+					c16Run(c, c16Case{Kind: "tcpfrag", Pat: &c16Pat{Tcp: &c16Tcp{Enable: c16pb(true), MaxSleepMs: c16p32(0)}}, Size: size, N: i})
 				}
 			}
-			c16Run(c, c16Case{Kind: "tcpfrag", Pat: &c16Pat{Tcp: &c16Tcp{Enable: pb(true), MaxSleepMs: p32(1)}}, Size: 300})
+			c16Run(c, c16Case{Kind: "tcpfrag", Pat: &c16Pat{Tcp: &c16Tcp{Enable: c16pb(true), MaxSleepMs: c16p32(1)}}, Size: 300})
 		},
 		Replay: func(c *core.Ctx, raw json.RawMessage) {
 			var k c16Case
